@@ -17,6 +17,8 @@ completely delivered, decides which outcomes are admissible for each operation.
 from __future__ import annotations
 
 import asyncio
+import copy
+import dataclasses
 import struct
 from dataclasses import dataclass, field
 from typing import Any
@@ -108,6 +110,12 @@ class HSFZ:
             return Frame("alive", self.hdr(0, 0x12), trigger, name=name)
         if name == "alive2":
             return Frame("alive", self.hdr(2, 0x12) + bytes([0x00, E]), trigger, name=name)
+        if name.startswith("undefA"):  # a control word that is neither data/ack/alive nor a listed error word, with address pair
+            cw = int(name[6:], 16)
+            return Frame("undef", self.hdr(2, cw) + bytes([E, T]), trigger, code=cw, name=name)
+        if name.startswith("undef"):
+            cw = int(name[5:], 16)
+            return Frame("undef", self.hdr(0, cw), trigger, code=cw, name=name)
         if name.startswith("errA"):
             cw = int(name[4:], 16)
             return Frame("err", self.hdr(2, cw) + bytes([E, T]), trigger, code=cw, name=name)
@@ -402,7 +410,10 @@ def build(item: dict[str, Any], box: dict[str, Any]) -> Any:
                 i += 1
                 ts = loop.time()
                 try:
-                    if op == "write":
+                    if op == "sleep":
+                        await asyncio.sleep(arg)  # the client is idle: nobody reads, nobody writes
+                        obs.ops.append((op, arg, ts, loop.time(), "ok"))
+                    elif op == "write":
                         await tr.write(bytes.fromhex(arg))
                         obs.ops.append((op, arg, ts, loop.time(), "ok"))
                     else:
@@ -473,6 +484,27 @@ def make_proto(item: dict[str, Any]) -> Any:
 
 
 def judge(item: dict[str, Any], obs: Obs, choices: list[int], res: Result, pid: str) -> None:
+    """Frames of kind ``undef`` (control words the statement does not classify) may be treated like an error word
+    (connection error + close) or be dropped; the run must be consistent with one of the two readings."""
+    if not any(f.kind == "undef" for f in obs.frames):
+        _judge1(item, obs, choices, res, pid)
+        return
+    first: Result | None = None
+    for reading in ("err", "drop"):
+        tmp = Result()
+        o2 = copy.copy(obs)
+        o2.frames = [dataclasses.replace(f, kind=reading) if f.kind == "undef" else f for f in obs.frames]
+        _judge1(item, o2, choices, tmp, pid)
+        if not tmp.violations:
+            res.count(f"undefined_word_read_as_{reading}")
+            return
+        first = first or tmp
+    assert first is not None
+    for viol in first.violations:
+        res.violate(viol.sig + "|undefined-control-word", viol.msg + " (neither reading of the undefined control word - error word / ignored - explains the run)", viol.replay)
+
+
+def _judge1(item: dict[str, Any], obs: Obs, choices: list[int], res: Result, pid: str) -> None:
     proto = make_proto(item)
     rp = {"item": item, "choices": choices}
     P = proto.name
@@ -523,6 +555,8 @@ def judge(item: dict[str, Any], obs: Obs, choices: list[int], res: Result, pid: 
     got_data: list[bytes] = []
     for op in obs.ops:
         kind, arg, ts, te, outcome = op[0], op[1], op[2], op[3], op[4]
+        if kind == "sleep":
+            continue
         if closed:
             if outcome in ("ok", "timeout"):
                 v(f"op-after-close|{kind}|{outcome}", f"{kind} on a connection the client had closed ended with {outcome}")
@@ -599,6 +633,9 @@ def judge(item: dict[str, Any], obs: Obs, choices: list[int], res: Result, pid: 
             if f is not None and f.kind == "err" and (in_time or boundary):
                 consumed.add(decisive)  # type: ignore[arg-type]
                 closed = True
+                if in_time and P == "hsfz" and (obs.client_closed_at is None or obs.client_closed_at > te + 1e-9):
+                    v(f"{kind}|decisive={fname}|connection-not-closed", f"{where}: error control word {f.name} surfaced as a connection error at t={te} but the client did not close the connection (closed at {obs.client_closed_at})")
+                    return
             elif f is not None and f.kind == "nack" and in_time:
                 consumed.add(decisive)  # type: ignore[arg-type]
             elif f is not None and f.kind == "nack" and boundary and not (obs.client_closed_at is not None and obs.client_closed_at <= te):
